@@ -101,8 +101,7 @@ func driveC16(c *Ctx) {
 			o.TypeSchemas = map[reflect.Type]*jsonschema.Schema{}
 			for k, n := range tsPick {
 				rt := TSTypes[n]
-				o.TypeSchemas[rt] = &jsonschema.Schema{Type: "object", Title: fmt.Sprintf("override-%s-%d", n, k),
-					Properties: map[string]*jsonschema.Schema{"o": {Type: "string"}, "p": {Types: []string{"integer", "string"}}}}
+				o.TypeSchemas[rt] = overrideSchema(n, k)
 			}
 		}
 		return o
@@ -290,6 +289,28 @@ func driveC16(c *Ctx) {
 	}
 	if c.logOn {
 		c.Sample = map[string]any{"type": ct.Name, "ignore_invalid": ignore, "typeschemas": tsPick, "steps": fmt.Sprint(steps), "first_result": trunc(d0, 500), "env": env}
+	}
+}
+
+// overrideSchema builds a TypeSchemas entry; the variants cover single and multiple types,
+// slices with spare capacity (as append and json.Unmarshal produce), and nested schemas.
+func overrideSchema(name string, k int) *jsonschema.Schema {
+	title := fmt.Sprintf("override-%s-%d", name, k)
+	switch (len(name) + k) % 4 {
+	case 0:
+		return &jsonschema.Schema{Type: "object", Title: title,
+			Properties: map[string]*jsonschema.Schema{"o": {Type: "string"}, "p": {Types: []string{"integer", "string"}}}}
+	case 1:
+		var s jsonschema.Schema
+		json.Unmarshal([]byte(`{"type":["string","number","integer"],"title":"`+title+`","items":{"type":["boolean","string","array"]}}`), &s)
+		return &s
+	case 2:
+		ts := make([]string, 0, 8)
+		ts = append(ts, "object", "string")
+		return &jsonschema.Schema{Types: ts, Title: title, Required: append(make([]string, 0, 4), "o"),
+			Properties: map[string]*jsonschema.Schema{"o": {Types: append(make([]string, 0, 4), "integer", "string")}}}
+	default:
+		return &jsonschema.Schema{Type: "string", Title: title, Enum: []any{"a", "b"}}
 	}
 }
 
